@@ -11,7 +11,7 @@ from . import wl_groups as wl
 PROPERTY = "C30"
 LEVEL = "exploration"
 SCENARIOS = {"nofault": 2, "wkc-faults": 3, "loss": 1}
-TIERS = {"quick": {"runs": 5000, "chunk": 20}, "thorough": {"runs": 160000, "chunk": 100}}
+TIERS = {"quick": {"runs": 5000, "chunk": 20}, "thorough": {"runs": 50000000, "wall_s": 600, "chunk": 100, "recheck": 16}}
 RULE = ("one run = 1-5 simulated I/O terminals (input/output sizes 0..12, FMMU or direct "
         "addressing), 1-3 recording devices linked to drawn bit/byte variables, one real "
         "slow SyncGroup started on the simulated bus and run for 6-30 cycles; the terminals "
